@@ -282,6 +282,23 @@ fn straddle_alphabet() -> Vec<Op> {
     a
 }
 
+/// Labels at the edges of ASCII case folding: pairs of equal length that
+/// differ in bit 0x20 of an octet that is NOT a letter ('@' / '`', '[' / '{',
+/// '_' / DEL, '-' / CR, '0' / 0x10, 0x80 / 0xa0) are different names and must
+/// never be compressed against each other; pairs that differ in the case of
+/// letters only may be (except in case-preserving mode).
+fn case_fold_edge_alphabet() -> Vec<Op> {
+    let mut a = vec![q("@b.t.", t::A, IN)];
+    for o in ["@b.t.", "`b.t.", "[x].t.", "{x}.t.", "_s.t.", "\\127s.t.", "-a.t.", "\\013a.t.", "0.t.", "\\016.t.", "\\128.t.", "\\160.t.", "Ab.t.", "aB.t."] {
+        a.push(rr(0, own(o), t::A, IN, 60, vec![10, 0, 0, 1], false));
+    }
+    for n in ["`b.t.", "{x}.t.", "\\127s.t.", "aB.t."] {
+        a.push(rr(0, own("t."), t::NS, IN, 60, rd_name(n), false));
+    }
+    a.extend([Op::SetMode(Mode::CasePreserving), Op::SetMode(Mode::Standard)]);
+    a
+}
+
 /// Families are listed cheapest first so that a wall-clock cap (overloaded
 /// machine) cuts into the largest family only.
 pub fn families(prop: crate::explore::Prop, quick: bool) -> Vec<Family> {
@@ -318,6 +335,13 @@ pub fn families(prop: crate::explore::Prop, quick: bool) -> Vec<Family> {
                 name: "straddle-0x4000",
                 what: "a TXT record of every length 16338..=16361 followed by owners / RDATA names that share leading labels and differ in a later label, so that a prior name straddles the end of the 14-bit pointer range",
                 alphabet: straddle_alphabet(),
+                configs: vec![whole()],
+                depth: d(3, 4),
+            },
+            Family {
+                name: "case-fold-edges",
+                what: "owners and RDATA names whose labels differ in bit 0x20 of a non-letter octet ('@' / '`', '[' / '{', '_' / DEL, '-' / CR, '0' / 0x10, 0x80 / 0xa0) next to genuine case variants, unhinted, in standard and case-preserving mode",
+                alphabet: case_fold_edge_alphabet(),
                 configs: vec![whole()],
                 depth: d(3, 4),
             },
@@ -364,6 +388,13 @@ pub fn families(prop: crate::explore::Prop, quick: bool) -> Vec<Family> {
                 name: "straddle-0x4000",
                 what: "a TXT record of every length 16338..=16361 followed by owners / RDATA names that share leading labels and differ in a later label, so that a prior name straddles the end of the 14-bit pointer range",
                 alphabet: straddle_alphabet(),
+                configs: vec![whole()],
+                depth: d(3, 4),
+            },
+            Family {
+                name: "case-fold-edges",
+                what: "owners and RDATA names whose labels differ in bit 0x20 of a non-letter octet ('@' / '`', '[' / '{', '_' / DEL, '-' / CR, '0' / 0x10, 0x80 / 0xa0) next to genuine case variants, unhinted, in standard and case-preserving mode",
+                alphabet: case_fold_edge_alphabet(),
                 configs: vec![whole()],
                 depth: d(3, 4),
             },
